@@ -51,7 +51,15 @@ func checkStream(rec *hx.Recorder, c streamCase) (string, bool) {
 		return "Decode returned no File\nstream: " + c.Text, false
 	}
 	exp := oracle.Expect(ip, fit.FileType(c.FileType), true)
-	diffs, _, und := oracle.Compare(f, exp, oracle.CompareOpts{})
+	// File.FileId is a struct value: it exists (zero) even when the stream was
+	// rejected before any file_id message
+	noFileID := true
+	for _, m := range ip.Msgs {
+		if m.Global == 0 {
+			noFileID = false
+		}
+	}
+	diffs, _, und := oracle.Compare(f, exp, oracle.CompareOpts{SkipFileId: noFileID})
 	rec.Undecided(int64(und))
 	var real []string
 	for _, d := range diffs {
@@ -294,6 +302,32 @@ func TestC13(t *testing.T) {
 					n++
 					if msg, ok := checkStream(rec, c); !ok {
 						rec.Fail("undefined", "", msg, c)
+					}
+				}
+			}
+			// the first data record of a file is no exception: whatever local
+			// type the file_id definition used, a first data record on any
+			// other local type has no definition (all 16 x 15 pairs, and the
+			// compressed forms)
+			for a := 0; a < 16; a++ {
+				for b := 0; b < 16; b++ {
+					if a == b {
+						continue
+					}
+					for _, compressed := range []bool{false, true} {
+						if compressed && (b > 3 || a&3 == b) {
+							continue
+						}
+						s := &fitmodel.Stream{HeaderSize: 12, Proto: 0x20, Recs: []fitmodel.Rec{
+							{IsDef: true, Local: byte(a), Global: 0, Fields: []fitmodel.FieldDef{{Num: 0, Size: 1, Base: 0}}},
+							{Local: byte(b), Compressed: compressed, Raw: []byte{4}},
+							{Local: byte(a), Raw: []byte{4}},
+						}}
+						c := streamCase{FileType: 4, Stream: s, Text: s.String()}
+						n++
+						if msg, ok := checkStream(rec, c); !ok {
+							rec.Fail("undefined", "", msg, c)
+						}
 					}
 				}
 			}
